@@ -153,8 +153,63 @@ func genRegistry(r *gen.R) []custLevel {
 	return out
 }
 
+// refusedAttempts issues registrations that must be refused (a fresh value with a title that is taken, a value that is
+// taken with a fresh title), each carrying a treated-as level and the error-device request: a refused registration
+// leaves no trace, so the admission rule afterwards is that of the successful registrations alone.
+func refusedAttempts(r *gen.R, cs []custLevel) (n int, accepted []string) {
+	taken := []string{"warning", "error", "info", "debug", "trace", "panic", "fatal", "ok", "success", "fail", "always", "off"}
+	for i, cl := range cs {
+		if !r.P(60) {
+			continue
+		}
+		x := gen.Pick(r, []slog.Level{slog.ErrorLevel, slog.WarnLevel, slog.InfoLevel, slog.DebugLevel, slog.TraceLevel, slog.PanicLevel})
+		var err error
+		var what string
+		switch r.IntN(3) {
+		case 0: // the value about to be registered, under a title that is in use
+			t := gen.Pick(r, taken)
+			what = fmt.Sprintf("RegisterLevel(%d,%q,treatAs=%v,errdev)", cl.val, t, x)
+			err = slog.RegisterLevel(cl.val, t, slog.RegWithTreatedAsLevel(x), slog.RegWithPrintToErrorDevice(true))
+		case 1: // a built-in value under a fresh title
+			v := gen.Pick(r, builtinLevels)
+			what = fmt.Sprintf("RegisterLevel(%d,%q,treatAs=%v,errdev)", v, fmt.Sprintf("fresh%d", i), x)
+			err = slog.RegisterLevel(v, fmt.Sprintf("fresh%d", i), slog.RegWithTreatedAsLevel(x), slog.RegWithPrintToErrorDevice(true))
+		default: // the value about to be registered, under the title of an earlier custom level (if any)
+			t := "warning"
+			if i > 0 && cs[i-1].val.String() == cs[i-1].title {
+				t = cs[i-1].title
+			}
+			what = fmt.Sprintf("RegisterLevel(%d,%q,treatAs=%v,errdev)", cl.val, t, x)
+			err = slog.RegisterLevel(cl.val, t, slog.RegWithTreatedAsLevel(x), slog.RegWithPrintToErrorDevice(true))
+		}
+		n++
+		if err == nil {
+			accepted = append(accepted, what)
+		}
+		// the successful registration of cs[i] follows in registerOne
+		if e2 := registerOne(cl); e2 != nil && err != nil {
+			accepted = append(accepted, "then refused: "+e2.Error())
+		}
+	}
+	return
+}
+
+func registerOne(cl custLevel) error {
+	var opts []slog.RegOpt
+	if cl.treatAs >= 0 {
+		opts = append(opts, slog.RegWithTreatedAsLevel(cl.treatAs))
+	}
+	if cl.errDev {
+		opts = append(opts, slog.RegWithPrintToErrorDevice(true))
+	}
+	return slog.RegisterLevel(cl.val, cl.title, opts...)
+}
+
 func registerAll(cs []custLevel) error {
 	for _, cl := range cs {
+		if slog.Level(cl.val).String() == cl.title {
+			continue // registered right after a refused attempt
+		}
 		var opts []slog.RegOpt
 		if cl.treatAs >= 0 {
 			opts = append(opts, slog.RegWithTreatedAsLevel(cl.treatAs))
@@ -178,6 +233,19 @@ func c01table(c *Ctx) {
 		if idx == 0 {
 			customs = nil // the plain built-in registry
 		}
+		// refused registrations interleaved with the successful ones (every other registry): they must leave no trace
+		refused := 0
+		if idx%2 == 1 {
+			var odd []string
+			refused, odd = refusedAttempts(r, customs)
+			if len(odd) > 0 {
+				// an accepted duplicate is C17's business; the model here cannot say what such a level is treated as
+				c.R.Add("registries_skipped_duplicate_accepted", 1)
+				c.R.Violation(idx, "gate", "C01/gate/registration-that-must-be-refused", fmt.Sprintf("a registration that must be refused was accepted, the admission table is undefined: %v", odd), nil)
+				return
+			}
+		}
+		c.R.Add("refused_registrations_before_the_table", int64(refused))
 		if err := registerAll(customs); err != nil {
 			c.R.Violation(idx, "harness", "C01/harness/register", err.Error(), nil)
 			return
@@ -233,7 +301,12 @@ func c01table(c *Ctx) {
 			{"off-3", func() { is.SetDebugMode(false) }, false},
 			{"on(side effect of WithLevel(Debug))", func() { _ = unrelated.WithLevel(slog.DebugLevel) }, true},
 			{"off-4", func() { is.SetDebugMode(false) }, false},
-			{"on(side effect of package SetLevel(Debug), restored)", func() { old := slog.GetLevel(); slog.SetLevel(slog.DebugLevel); slog.SetLevel(old); is.SetTraceMode(false) }, true},
+			{"on(side effect of package SetLevel(Debug), restored)", func() {
+				old := slog.GetLevel()
+				slog.SetLevel(slog.DebugLevel)
+				slog.SetLevel(old)
+				is.SetTraceMode(false)
+			}, true},
 		}
 		if c.Tier == "quick" && idx > 0 {
 			states = states[:4]
@@ -281,7 +354,17 @@ func c01table(c *Ctx) {
 						for _, r := range rs {
 							log.Reset()
 							c.R.JournalNote(fmt.Sprintf("%s %s L=%d r=%d", kd.name, e.name, L, r))
+							// the process-wide verbose mode (a CLI --verbose, never set by the library) is on for every other
+							// call: it is not part of the admission rule, and Verbose emits nothing in a default build either way
+							vm := (cells+int(L))%2 == 1
+							if vm {
+								is.SetVerboseMode(true)
+								c.R.Add("calls_with_process_verbose_mode_on", 1)
+							}
 							e.call(kd.l, ctx, r)
+							if vm {
+								is.SetVerboseMode(false)
+							}
 							n := log.Len()
 							cells++
 							want := admit(L, r, d, treat)
@@ -297,7 +380,7 @@ func c01table(c *Ctx) {
 								c.R.Violation(idx, "gate", "C01/gate/"+e.name+"/"+kind,
 									fmt.Sprintf("%s on %s: logger level %v(%d), severity %v(%d), debug mode %v [%s]: %d write(s), rule says admit=%v; events: %s",
 										e.name, kd.name, L, int(L), r, int(r), d, st.name, n, want, fmtEvents(log.Events())),
-									map[string]any{"customs": cdesc, "entry": e.name, "logger": kd.name, "level": int(L), "severity": int(r), "debug": d, "history": st.name})
+									map[string]any{"customs": cdesc, "entry": e.name, "logger": kd.name, "level": int(L), "severity": int(r), "debug": d, "verbose_mode": vm, "history": st.name})
 							}
 							if n > 0 {
 								c.R.Add("records_emitted", 1)
